@@ -454,6 +454,45 @@ package mongokit
 //@   ensures [C11,C08 name=absent-is-noop] imp(old(spec.getPath(*doc, path)) == spec.VMissing, err == nil && nothingRecorded(ch))
 //@   ensures [C08 name=records-removal] imp(err == nil && old(spec.getPath(*doc, path)) != spec.VMissing, has(ch.Changed, path) && ch.Changed[path] == spec.VMissing)
 
+// $setOnInsert is $set when the update is an upsert and nothing otherwise.
+//@ func applySetOnInsert
+//@   tags C11 C08
+//@   uses access
+//@   let ch = asptr(ctx.Value, Changes)
+//@   requires opCtx(ctx, doc) && spec.wfVal(v)
+//@   ensures [C11,C08 name=only-on-upsert] imp(!old(ch.Upsert), err == nil && *doc == old(*doc) && nothingRecorded(ch))
+//@   ensures [C11 name=sets] imp(old(ch.Upsert) && err == nil, *doc == spec.putPath(old(*doc), path, v, false))
+//@   ensures [C08 name=records-new-value] imp(old(ch.Upsert) && err == nil, has(ch.Changed, path) && ch.Changed[path] == v)
+
+// $rename moves the value: written at the new path, removed at the old one, both
+// recorded; an absent source is a no-op, and every rejected shape (operand not a
+// string, identical or overlapping paths) leaves the document and the record alone.
+//@ func applyRename
+//@   tags C11 C08
+//@   uses access
+//@   let ch = asptr(ctx.Value, Changes)
+//@   let src = old(spec.getPath(*doc, path))
+//@   requires opCtx(ctx, doc)
+//@   ensures [C11 name=operand-must-be-string] imp(!is(v, VStr), err != nil && *doc == old(*doc) && nothingRecorded(ch))
+//@   ensures [C11 name=same-path-rejected] imp(is(v, VStr) && spec.str(v) == path, err != nil && *doc == old(*doc) && nothingRecorded(ch))
+//@   ensures [C11,C08 name=absent-is-noop] imp(err == nil && src == spec.VMissing, *doc == old(*doc) && nothingRecorded(ch))
+//@   ensures [C11 name=moved] imp(err == nil && src != spec.VMissing, is(v, VStr) && *doc == spec.unsetPath(spec.putPath(old(*doc), spec.str(v), src, false), path))
+//@   ensures [C08 name=records-both] imp(err == nil && src != spec.VMissing, has(ch.Changed, path) && ch.Changed[path] == spec.VMissing && has(ch.Changed, spec.str(v)) && ch.Changed[spec.str(v)] == src)
+
+// $currentDate writes one value - a date, or a timestamp when {$type: "timestamp"}
+// asks for it - at the path and records exactly that value; false is a no-op and
+// every other operand shape is rejected without touching the document.
+//@ func applyCurrentDate
+//@   tags C11 C08
+//@   uses access
+//@   let ch = asptr(ctx.Value, Changes)
+//@   requires opCtx(ctx, doc)
+//@   ensures [C11,C08 name=false-is-noop] imp(is(v, VBool) && !spec.bool(v), err == nil && *doc == old(*doc) && nothingRecorded(ch))
+//@   ensures [C11 name=bad-operand-rejected] imp(!is(v, VBool) && !is(v, VDoc), err != nil && *doc == old(*doc) && nothingRecorded(ch))
+//@   ensures [C11,C08 name=written-is-recorded] imp(err == nil && !(is(v, VBool) && !spec.bool(v)), has(ch.Changed, path) && *doc == spec.putPath(old(*doc), path, ch.Changed[path], false))
+//@   ensures [C11 name=date-for-true] imp(err == nil && is(v, VBool) && spec.bool(v), is(ch.Changed[path], VDate))
+//@   ensures [C11 name=date-or-timestamp] imp(err == nil && is(v, VDoc), is(ch.Changed[path], VDate) || is(ch.Changed[path], VTs))
+
 //@ func applyInc
 //@   tags C11 C08
 //@   uses access
@@ -499,12 +538,102 @@ package mongokit
 //@   ensures [C11 name=replaces-greater] imp(err == nil && (cur == spec.VMissing || spec.cmp(cur, v) > 0), *doc == spec.putPath(old(*doc), path, v, false))
 //@   ensures [C08 name=records-new-value] imp(err == nil && (cur == spec.VMissing || spec.cmp(cur, v) > 0), has(ch.Changed, path) && ch.Changed[path] == v)
 
+// $pullAll removes every element that is BSON-equal to one of the operands and
+// nothing else; when there is nothing to remove it is a no-op (so a second
+// application changes nothing); what it writes is what it records.
+//@ define isTarget(x, ts) = exists(t, 0, len(ts), spec.witness(t) && spec.cmp(x, ts[t]) == 0)
+//@ func applyPullAll
+//@   tags C11 C08
+//@   uses access order
+//@   let ch = asptr(ctx.Value, Changes)
+//@   let cur = old(spec.getPath(*doc, path))
+//@   locals result removed arr targets item match
+//@   requires opCtx(ctx, doc) && spec.wfVal(v)
+//@   ensures [C11 name=operand-must-be-array] imp(!is(v, VArr), err != nil && *doc == old(*doc) && nothingRecorded(ch))
+//@   ensures [C11,C08 name=absent-is-noop] imp(is(v, VArr) && cur == spec.VMissing, err == nil && *doc == old(*doc) && nothingRecorded(ch))
+//@   ensures [C11 name=target-must-be-array] imp(is(v, VArr) && cur != spec.VMissing && !is(cur, VArr), err != nil && *doc == old(*doc) && nothingRecorded(ch))
+//@   ensures [C11,C08 name=nothing-to-pull-is-noop] imp(is(v, VArr) && is(cur, VArr) && forall(k, 0, len(spec.arr(cur)), !isTarget(spec.arr(cur)[k], spec.arr(v))), err == nil && *doc == old(*doc) && nothingRecorded(ch))
+//@   ensures [C11,C08 name=written-is-recorded] imp(err == nil && !nothingRecorded(ch), has(ch.Changed, path) && is(ch.Changed[path], VArr) && *doc == spec.putPath(old(*doc), path, ch.Changed[path], false))
+//@   ensures [C11 name=no-target-remains] imp(err == nil && !nothingRecorded(ch), forall(k, 0, len(spec.arr(ch.Changed[path])), imp(spec.witness(k), !isTarget(spec.arr(ch.Changed[path])[k], spec.arr(v)))))
+//@   loop 0 invariant is(v, VArr) && is(cur, VArr) && *doc == old(*doc) && nothingRecorded(ch) && len(result) <= rangeindex + 1
+//@   loop 0 invariant forall(k, 0, len(result), imp(spec.witness(k), !isTarget(result[k], targets)))
+//@   loop 0 invariant imp(!removed, forall(j, 0, rangeindex + 1, !isTarget(arr[j], targets)))
+//@   loop 0 invariant imp(removed, exists(j, 0, rangeindex + 1, isTarget(arr[j], targets)))
+//@   loop 1 invariant imp(removed, exists(j, 0, rangeindex0 + 1, isTarget(arr[j], targets))) && imp(match, isTarget(item, targets))
+//@   loop 1 invariant imp(!match, forall(t, 0, rangeindex + 1, spec.cmp(item, targets[t]) != 0)) && spec.witness(rangeindex + 1)
+//@   loop 1 invariant is(v, VArr) && is(cur, VArr) && *doc == old(*doc) && nothingRecorded(ch) && len(result) <= rangeindex0 + 1
+//@   loop 1 invariant forall(k, 0, len(result), imp(spec.witness(k), !isTarget(result[k], targets))) && imp(!removed, forall(j, 0, rangeindex0 + 1, !isTarget(arr[j], targets)))
+
+// $addToSet appends the values that are not yet in the array (BSON equality) and
+// keeps what is there in place; when every value is present it is a no-op (so a
+// second application changes nothing); what it writes is what it records.
+//@ define isIn(x, a, n) = exists(e, 0, n, spec.witness(e) && spec.cmp(a[e], x) == 0)
+//@ func applyAddToSet
+//@   tags C11 C08
+//@   uses access order
+//@   let ch = asptr(ctx.Value, Changes)
+//@   let cur = old(spec.getPath(*doc, path))
+//@   let n0 = ite(cur == spec.VMissing, 0, len(spec.arr(cur)))
+//@   locals values arr changed found val modifierForm
+//@   requires opCtx(ctx, doc) && spec.wfVal(v)
+//@   ensures [C11 name=target-must-be-array] imp(cur != spec.VMissing && !is(cur, VArr) && err == nil, false)
+//@   ensures [C11,C08 name=no-addition-nothing-recorded] imp(!changed, nothingRecorded(ch) && *doc == old(*doc))
+//@   ensures [C11,C08 name=written-is-recorded] imp(err == nil && changed, has(ch.Changed, path) && is(ch.Changed[path], VArr) && *doc == spec.putPath(old(*doc), path, ch.Changed[path], false))
+//@   ensures [C11 name=existing-elements-stay] imp(err == nil && changed, len(spec.arr(ch.Changed[path])) > n0 && forall(k, 0, n0, spec.arr(ch.Changed[path])[k] == spec.arr(cur)[k]))
+//@   ensures [C11 name=all-present-afterwards] imp(err == nil && changed, forall(i, 0, len(values), imp(spec.witness(i), isIn(values[i], spec.arr(ch.Changed[path]), len(spec.arr(ch.Changed[path]))))))
+//@   ensures [C11,C08 name=nothing-new-is-noop] imp(err == nil && !changed, forall(i, 0, len(values), imp(spec.witness(i), isIn(values[i], spec.arr(cur), n0))))
+//@   loop 2 invariant (cur == spec.VMissing || is(cur, VArr)) && *doc == old(*doc) && nothingRecorded(ch) && len(arr) >= n0 && forall(k, 0, n0, arr[k] == spec.arr(cur)[k]) && changed == (len(arr) > n0)
+//@   loop 2 invariant forall(i, 0, rangeindex + 1, imp(spec.witness(i), isIn(values[i], arr, len(arr))))
+//@   loop 3 invariant (cur == spec.VMissing || is(cur, VArr)) && *doc == old(*doc) && nothingRecorded(ch) && len(arr) >= n0 && forall(k, 0, n0, arr[k] == spec.arr(cur)[k]) && changed == (len(arr) > n0)
+//@   loop 3 invariant forall(i, 0, rangeindex2 + 1, imp(spec.witness(i), isIn(values[i], arr, len(arr)))) && spec.witness(rangeindex + 1)
+//@   loop 3 invariant imp(!found, forall(e, 0, rangeindex + 1, spec.cmp(arr[e], val) != 0)) && imp(found, isIn(val, arr, len(arr)))
+
 // ---------------------------------------------------------------------------
 // project.go
 //
 // $slice against MongoDB's window definition (specs/window.smt2, 128-bit
 // arithmetic). The array is what Get finds at the path; the result is what the
 // operator leaves in the merge map of the projection state.
+
+// Project (trusted against its abstract view, specs/project.smt2): a new
+// document whose content depends only on the stored document and the
+// projection; neither of them is written. ProjectList is verified to return,
+// position by position, the projection of each document of the list - computed
+// from that document and the projection alone, so nothing carries over from one
+// document to the next.
+//@ func Project
+//@   trusted
+//@   uses project
+//@   modifies nothing
+//@   ensures (err == nil) == spec.projectOK(*doc, *projection)
+//@   ensures imp(err == nil, result0 != nil && fresh(result0) && *result0 == spec.projected(*doc, *projection))
+//@ func ProjectList
+//@   tags C14
+//@   uses project
+//@   requires projection != nil && forall(i, 0, len(list), list[i] != nil)
+//@   modifies nothing
+//@   locals result
+//@   ensures [C14 name=each-document-on-its-own] imp(err == nil, len(result0) == len(list) && forall(i, 0, len(list), result0[i] != nil && *result0[i] == spec.projected(*list[i], *projection)))
+//@   ensures [C14 name=all-or-error] (err == nil) == forall(i, 0, len(list), spec.projectOK(*list[i], *projection))
+//@   ensures [C14 name=stored-documents-untouched] forall(i, 0, len(list), *list[i] == old(*list[i]))
+//@   loop 0 invariant (cap(result) == 0 || fresh(result)) && len(result) == rangeindex + 1 && forall(i, 0, rangeindex + 1, result[i] != nil && fresh(result[i]) && *result[i] == spec.projected(*list[i], *projection))
+//@   loop 0 invariant forall(i, 0, rangeindex + 1, spec.projectOK(*list[i], *projection)) && forall(i, 0, len(list), *list[i] == old(*list[i]))
+
+// An inclusion / exclusion entry of a projection goes to exactly one of the
+// three places of the projection state; anything that is not a boolean, 1 or 0
+// is rejected and leaves the state alone.
+//@ func projectCondition
+//@   tags C14
+//@   uses order
+//@   let st = asptr(ctx.Value, projectState)
+//@   let wants = ite(is(v, VBool), spec.bool(v), spec.cmp(v, spec.VI64(1)) == 0)
+//@   let valid = is(v, VBool) || spec.cmp(v, spec.VI64(1)) == 0 || spec.cmp(v, spec.VI64(0)) == 0
+//@   requires hastype(ctx.Value, "*mongokit.projectState") && spec.wfVal(v)
+//@   ensures [C14 name=valid-or-error] (err == nil) == valid
+//@   ensures [C14 name=included] imp(valid && wants, len(st.include) == old(len(st.include)) + 1 && st.include[old(len(st.include))] == path && len(st.exclude) == old(len(st.exclude)) && st.hideID == old(st.hideID))
+//@   ensures [C14 name=id-hidden] imp(valid && !wants && path == "_id", st.hideID && len(st.include) == old(len(st.include)) && len(st.exclude) == old(len(st.exclude)))
+//@   ensures [C14 name=excluded] imp(valid && !wants && path != "_id", len(st.exclude) == old(len(st.exclude)) + 1 && st.exclude[old(len(st.exclude))] == path && len(st.include) == old(len(st.include)) && st.hideID == old(st.hideID))
+//@   ensures [C14 name=rejected-untouched] imp(!valid, len(st.include) == old(len(st.include)) && len(st.exclude) == old(len(st.exclude)) && st.hideID == old(st.hideID))
 
 //@ func projectSliceInt
 //@   mode bv
